@@ -265,7 +265,7 @@ def rule_SH(run: Run) -> RuleResult:
                 sw_terms.add((e.target.attrs["key"].key(), e.target.attrs["default"].key() if e.target.attrs.get("default") is not None else None, e.opts.key() if e.opts is not None else None))
     ok = sw_terms == {("Const('LABREA.EFFECTS.DISABLED')", "New(Value;value=Const(False))", "options")}
     res.add("labrea.computation._EFFECTS_DISABLED:Option('LABREA.EFFECTS.DISABLED', False)", ok, cmod.relpath, 1, f"{sorted(sw_terms)}", nec)
-    for op in ("evaluate", "validate"):
+    for op in ("evaluate", "validate", "explain"):
         ps = normal(run.paths(co, op))
         with_e = [p for p in ps if any(e.kind == "op" and isinstance(e.target, Child) and e.target.path == "effect" for e in p.events)]
         without = [p for p in ps if p not in with_e]
